@@ -37,7 +37,7 @@ Classes(p, c) ==
     [] c = "vsi"      -> <<{Abs}, {Str(1, 0), Str(46, 0)}, {Str(0, 0)}, {Str(6, 1), Str(6, 2)}>>            \* any non-empty text is valid
     [] c = "profile"  -> <<{Abs}, {Prof(Canon(p))}, {Prof(IF p = "P1" THEN P2Name ELSE X2Name)},
                            {Prof("http://UNKNOWN"), Prof(IF p = "P1" THEN "" ELSE "1.2.3")}>>
-    [] c = "noSw"     -> IF p = "P1" THEN <<{Abs}, {IntV(1)}, {}, {}>> ELSE <<{Abs}, {}, {}, {}>>
+    [] c = "noSw"     -> IF p = "P1" THEN <<{Abs}, {IntV(1), IntV(0), IntV(2)}, {}, {}>> ELSE <<{Abs}, {}, {}, {}>>   \* presence is what counts, whatever the value
     [] c = "sw"       -> LET ok == Comp(Abs, H(32), Abs, H(32), Abs) IN
                          <<{SwV(<<>>)},
                            {SwV(<<ok>>), SwV(<<Comp(Str(2, 0), H(48), Str(5, 0), H(64), Str(7, 0))>>), SwV(<<ok, Comp(Abs, H(64), Abs, H(48), Abs)>>)},
